@@ -207,11 +207,50 @@ func VerifC13Echo() {
 	}
 	// B's replication stream as seen by the opposite link
 	back := verifPropagate(siteB.log, mark, true)
+	// ... followed, in the same stream, by what a client of site B writes itself: the
+	// recognition of the tool's own traffic must not leak into what comes after it
+	var tail [][][]byte
+	tailTxn := false
+	switch verifChoose("tail", 3) {
+	case 1:
+		tail = append(tail, [][]byte{[]byte("SET"), append([]byte("user:"), verifBytes("tkey", 1)...), verifBytes("tval", 1)})
+	case 2:
+		tailTxn = true
+		tail = append(tail, [][]byte{[]byte("SET"), append([]byte("user:"), verifBytes("tkey", 1)...), verifBytes("tval", 1)},
+			[][]byte{[]byte("DEL"), append([]byte("user:"), verifBytes("tkey", 1)...)})
+	}
+	if tailTxn {
+		back = append(back, verifResp([]byte("MULTI"))...)
+	}
+	for _, c := range tail {
+		back = append(back, verifResp(c...)...)
+	}
+	if tailTxn {
+		back = append(back, verifResp([]byte("EXEC"))...)
+	}
 	ba := verifBisyncLink(verifNewFake(), "redis-gunyu-checkpoint-bisync:bb02", mode)
 	echo, perr := verifParseUnits(ba, back, 5000)
 	verifAssert(perr == nil || errors.Is(perr, io.EOF), "C13.echo.parser-error")
 	verifObserve("echo", int64(len(echo)))
-	verifAssert(len(echo) == 0, "C13.echo.own-write-sent-back")
+	if len(tail) == 0 {
+		verifAssert(len(echo) == 0, "C13.echo.own-write-sent-back")
+	} else {
+		verifAssert(len(echo) <= 1, "C13.echo.own-write-sent-back")
+		verifAssert(len(echo) >= 1, "C13.foreign.suppressed-after-own-traffic")
+		if len(echo) == 1 {
+			u := echo[0]
+			verifAssert(len(u.Commands) == len(tail), "C13.foreign.command-count")
+			for i := 0; i < len(tail) && i < len(u.Commands); i++ {
+				g := u.Commands[i]
+				ok := g.Cmd == strings.ToLower(string(tail[i][0])) && len(g.Args) == len(tail[i])-1
+				for j := 0; ok && j < len(g.Args); j++ {
+					ok = bytes.Equal(g.Args[j], tail[i][j+1])
+				}
+				verifAssert(ok, "C13.foreign.command-altered")
+			}
+		}
+		verifCover(tailTxn, "echo.then-foreign-txn")
+	}
 	verifReach("echo.done")
 }
 
